@@ -386,7 +386,8 @@ def run_exec(ctx, execs):
         name = "x%05d" % fid
         programs.append((name, mg.runtime_program(defs, ms)))
         info[name] = ms
-    built, d = progrun.compile_all("c11x", programs, timeout=900)
+    backends = tuple(getattr(ctx, "opts", {}).get("backends", "cannon,boots").split(","))
+    built, d = progrun.compile_all("c11x", programs, backends=backends, timeout=900)
     src = dict(programs)
     jobs = []
     for name, ms in info.items():
@@ -462,7 +463,8 @@ def run_exec(ctx, execs):
 
 def run(ctx):
     opts = getattr(ctx, "opts", {})
-    build.ensure_toolchain("rel", need_boots=opts.get("noexec") != "1")
+    backends = opts.get("backends", "cannon,boots").split(",")
+    build.ensure_toolchain("rel", need_boots=opts.get("noexec") != "1" and "boots" in backends)
     dora = build.dora("rel")
     d = core.scratch("c11")
     jobs = []
@@ -479,8 +481,10 @@ def run(ctx):
             for lo in range(0, sp.total, PER_FILE):
                 add(kind="small", space=sp.name, lo=lo, hi=min(sp.total, lo + PER_FILE))
     scale = float(opts.get("scale", "1"))
-    fam = {"core": ctx.pick(30, 1300), "lit": ctx.pick(10, 350), "rest": ctx.pick(8, 300), "restm": ctx.pick(6, 40), "restt": ctx.pick(4, 30)}
-    exec_files = {"core": ctx.pick(9, 130), "lit": ctx.pick(4, 50), "rest": ctx.pick(3, 30), "restm": ctx.pick(1, 4), "restt": ctx.pick(1, 4)}
+    fam = {"core": ctx.pick(28, 1250), "lit": ctx.pick(10, 350), "rest": ctx.pick(7, 250), "dense": ctx.pick(4, 100),
+           "restm": ctx.pick(6, 40), "restt": ctx.pick(4, 30)}
+    exec_files = {"core": ctx.pick(7, 110), "lit": ctx.pick(3, 40), "rest": ctx.pick(2, 25), "dense": ctx.pick(3, 30),
+                  "restm": ctx.pick(1, 4), "restt": ctx.pick(1, 4)}
     exec_per_file = ctx.pick(20, 24)
     only = opts.get("family")
     for f, nf in fam.items():
@@ -521,5 +525,5 @@ def run(ctx):
     ctx.required_counters = ["matrices", "files_checked", "exhaustive:oracle=yes,checker=yes", "exhaustive:oracle=no,checker=no",
                              "arm:oracle=useless,checker=useless", "arm:oracle=useful,checker=useful", "witnesses"]
     if opts.get("noexec") != "1":
-        ctx.required_counters += ["values_executed", "matches_executed:cannon", "matches_executed:boots"]
+        ctx.required_counters += ["values_executed"] + ["matches_executed:" + b for b in backends]
     ctx.min_distinct = 100
